@@ -503,6 +503,47 @@ fn gen_pair(r: &mut Rng, family: &str, max_depth: usize) -> Option<CPair> {
             }
             CPair { a, b, how: format!("swap network appended ({})", if as_cnots { "3 CNOTs per swap" } else { "SWAP gates" }) }
         }
+        "float-heavy-equal" => {
+            // many rotations by angles that are not multiples of pi/4 (approximate scalars
+            // accumulate rounding errors), second circuit equal by construction
+            let n = 1 + r.below(2);
+            let depth = 8 + r.below(max_depth + 8);
+            let mut gates = vec![];
+            for _ in 0..depth {
+                let q = r.below(n);
+                let k = r.below(20);
+                gates.push(if k < 9 {
+                    G::Rz(q, gen_ph(r, PhPool::Float))
+                } else if k < 16 {
+                    G::Rx(q, gen_ph(r, PhPool::Float))
+                } else if k < 18 || n < 2 {
+                    G::H(q)
+                } else {
+                    G::Cx(q, 1 - q)
+                });
+            }
+            let a = Circ { n, gates };
+            let mut b = a.clone();
+            let how = if r.chance(0.4) {
+                match reextract(&a, r.chance(0.5)) {
+                    Ok(x) => {
+                        b = x;
+                        "float-heavy circuit vs its re-extraction"
+                    }
+                    Err(_) => "float-heavy circuit vs itself",
+                }
+            } else {
+                for _ in 0..(1 + r.below(3)) {
+                    let pos = r.below(b.gates.len() + 1);
+                    let q = r.below(n);
+                    let p = gen_ph(r, PhPool::Float);
+                    let ins = if r.chance(0.5) { vec![G::Rz(q, p), G::Rz(q, neg(p))] } else { vec![G::Rx(q, neg(p)), G::Rx(q, p)] };
+                    insert_at(&mut b.gates, pos, ins);
+                }
+                "float-heavy circuit with cancelling rotations inserted"
+            };
+            CPair { a, b, how: how.into() }
+        }
         "ancilla-observed" => {
             let mut p = params(n.max(2), max_depth, PhPool::Exact);
             p.ancilla = true;
@@ -530,6 +571,9 @@ fn gen_pair(r: &mut Rng, family: &str, max_depth: usize) -> Option<CPair> {
 fn pclass(e: &Caught) -> String {
     match e {
         Caught::Panic { msg, .. } => {
+            if msg.starts_with("index out of bounds") {
+                return "panic:index out of bounds".into();
+            }
             let m: String = msg.chars().filter(|c| !c.is_ascii_digit()).take(44).collect();
             format!("panic:{}", m.trim())
         }
@@ -970,6 +1014,7 @@ pub fn run() {
     fam!("global-phase", n, true);
     fam!("hadamard-wires", n, true);
     fam!("wire-permutation", n, true);
+    fam!("float-heavy-equal", n * 20, true);
     fam!("ancilla-observed", n / 2, false);
     c.extra("family_wall_s", Value::Object(walls));
     c.extra("exhaustive", json!(false));
